@@ -138,6 +138,24 @@ def build():
     for flav, comp in (("vanilla", None), ("nv", NVSubroutineTranspiler)):
         R.add(f"equivalence[{flav}, two pre-compiled rounds measuring into registers]", kind="lia", samples=15, max_paths=400)(mk_rounds(comp, 2))
 
+    def flushed_between(ctx):
+        v = ctx.int("value", 0, 255)
+        connA, exA = _mk(ctx)
+        outs = list(exA.outcomes)
+        resA = ctx.call(P.compile_flush_other_work_then_commit, connA, Template("a"), 3, {"a": v})
+        connB, exB = _mk(ctx)
+        exB.outcomes = list(outs)
+        resB = ctx.call(P.compile_flush_other_work_then_commit, connB, v, 3, None)
+        ctx.check("three-subroutines-each", len(connA.sent) == len(connB.sent) == 3)
+        if len(connA.sent) == len(connB.sent) == 3:
+            # pre-compiled path: [other work, block, tail]; direct path: [block, other work, tail]
+            ctx.check("the pre-compiled block equals the block flushed directly", ctx.eq(ctx.getattr(connA.sent[1], "instructions"), ctx.getattr(connB.sent[0], "instructions")))
+            ctx.check("the other work flushed between compile and commit equals the same work flushed after a flush",
+                      ctx.eq(ctx.getattr(connA.sent[0], "instructions"), ctx.getattr(connB.sent[1], "instructions")))
+            ctx.check("the subroutine flushed afterwards is the same", ctx.eq(ctx.getattr(connA.sent[2], "instructions"), ctx.getattr(connB.sent[2], "instructions")))
+        ctx.check("connection-left-in-the-same-state", _builder_state(connA) == _builder_state(connB))
+    R.add("equivalence[other work flushed between compile and commit]", kind="lia", samples=25, max_paths=400)(flushed_between)
+
     def queued(ctx):
         v = ctx.int("value", 0, 255)
         connA, exA = _mk(ctx)
